@@ -2,6 +2,7 @@ import MuduoVerif.Proofs.Codec
 import MuduoVerif.Proofs.Http
 import MuduoVerif.Proofs.CodecSkelTie
 import MuduoVerif.Proofs.CodecObjects
+import MuduoVerif.Proofs.CodecEx
 import MuduoVerif.Proofs.HttpSkelTie
 /-!
 # C18 — stream decoders: segmentation-invariant, bounded, reject malformed input
@@ -200,6 +201,28 @@ theorem frame_then_rest (c : Cfg) (p rest : Bytes)
     decode c (encode c p ++ rest) = ((decode c rest).1, .msg p :: (decode c rest).2) ∧
     (encode c p).length = 4 + (c.tag.length + p.length + 4) :=
   ⟨decode_encode_append c p rest hmax hp hraw, encode_length c p⟩
+
+/-! ## the example codec (`examples/protobuf/codec/codec.cc`): round trip -/
+
+/-- **every message the example codec encodes decodes to an equal message**: for every type name (non-empty: the wire
+format stores it with its NUL and the decoder demands `nameLen >= 2`) that `createMessage` knows and every payload
+protobuf parses for that type, of ANY size within the decoder's limit, the frame `ProtobufCodec::fillEmptyBuffer`
+builds (`Ex.encode`: length, name length, name + NUL, payload, Adler-32 of those three) is decoded by
+`ProtobufCodec::onMessage` (`Ex.step` / `Ex.feed`) to exactly that type name and payload, the whole frame and nothing
+else is consumed, whatever follows it in the buffer.  Sizes are unbounded naturals here: the growth of the real
+`Buffer` while the encoder writes is the implementation's business and is watched by the differential run. -/
+theorem ex_roundtrip (c : Ex.Cfg) (typeName payload : Bytes) (hname : 1 ≤ typeName.length)
+    (hmax : 4 + (typeName.length + 1) + payload.length + 4 ≤ Gen.ExCodec.kMaxMessageLen)
+    (hk : c.typeKnown typeName = true) (hp : c.parsePayload typeName payload = true) :
+    Ex.feed c Ex.init (Ex.encode typeName payload) = ({ s := (), buf := [], dead := false }, [.msg typeName payload]) ∧
+    ∀ rest, Ex.step c () (Ex.encode typeName payload ++ rest)
+      = .adv () [.msg typeName payload] (Ex.encode typeName payload).length :=
+  ⟨Ex.feed_encode c typeName payload hname hmax hk hp, fun rest => Ex.step_encode c typeName payload rest hname hmax hk hp⟩
+
+/-- the hypotheses of `ex_roundtrip` are satisfiable -/
+example : ∃ (c : Ex.Cfg) (t p : Bytes), 1 ≤ t.length ∧ 4 + (t.length + 1) + p.length + 4 ≤ Gen.ExCodec.kMaxMessageLen ∧
+    c.typeKnown t = true ∧ c.parsePayload t p = true :=
+  ⟨{ typeKnown := fun _ => true, parsePayload := fun _ _ => true }, [77], [8, 1], by decide, by decide, rfl, rfl⟩
 
 /-! ## a message handed out stays the message -/
 
